@@ -59,7 +59,18 @@ var kernelList = []kernelSpec{
 	{"x/reward/types", "Pool", "TopUp"},
 	{"x/reward/types", "Pool", "Withdraw"},
 	{"x/house/types", "Deposit", "CalcHouseParticipationFeeAmount"},
+	{"x/bet/types", "", "CalculateDecimalPayout"},
+	{"x/bet/types", "", "CalculateDecimalBetAmount"},
+	{"x/bet/types", "", "calculatePayout"},
+	{"x/bet/types", "", "CalculatePayoutProfit"},
+	{"x/bet/types", "", "calculateBetAmount"},
+	{"x/bet/types", "", "CalculateBetAmount"},
+	{"x/bet/types", "", "CalculateBetAmountInt"},
+	{"x/mint/types", "Minter", "NextPhaseProvisions"},
 }
+
+// structs that only occur as parameters
+var extraStructs = []kernelSpec{{"x/mint/types", "Phase", ""}}
 
 type ktrans struct {
 	w       *world
@@ -359,6 +370,9 @@ func (c *fctx) call(e *ast.CallExpr) string {
 	}
 	switch f := e.Fun.(type) {
 	case *ast.Ident:
+		if fn, ok := c.info.Uses[f].(*types.Func); ok && fn.Pkg() != nil && c.k.spec["."+fn.Name()] {
+			return fmt.Sprintf("(K__%s %s)", fn.Name(), strings.Join(args, " "))
+		}
 		if f.Name == "len" && len(e.Args) == 1 {
 			if se, ok := e.Args[0].(*ast.SelectorExpr); ok {
 				if s := c.k.structOf(c.info.TypeOf(se.X)); s != "" {
@@ -383,6 +397,9 @@ func (c *fctx) call(e *ast.CallExpr) string {
 						return args[0]
 					case "LegacyNewDec", "LegacyNewDecFromInt":
 						return fmt.Sprintf("(dec_of_int %s)", args[0])
+					case "LegacyNewDecFromStr":
+						// the decimal string of the ticket IS the value in the model (parsing is the harness's domain): always Some
+						return fmt.Sprintf("(Some %s)", args[0])
 					case "MaxInt":
 						return fmt.Sprintf("(Z.max %s %s)", args[0], args[1])
 					case "MinInt":
@@ -455,6 +472,13 @@ func (c *fctx) ret(s *ast.ReturnStmt) string {
 		if len(s.Results) == 2 {
 			if isNilIdent(s.Results[1]) {
 				return fmt.Sprintf("Some %s", c.expr(s.Results[0]))
+			}
+			return "None"
+		}
+	case "val2err":
+		if len(s.Results) == 3 {
+			if isNilIdent(s.Results[2]) {
+				return fmt.Sprintf("Some (%s, %s)", c.expr(s.Results[0]), c.expr(s.Results[1]))
 			}
 			return "None"
 		}
@@ -554,6 +578,23 @@ func (c *fctx) stmts(list []ast.Stmt) string {
 	case *ast.DeclStmt:
 		return rest()
 	case *ast.AssignStmt:
+		// x, err := f(...) ; if err != nil { return ..., err }   ==>   match f ... with Some x => rest | None => <the error return> end
+		if len(s.Lhs) == 2 && len(s.Rhs) == 1 && len(list) >= 2 {
+			if e2, ok := s.Lhs[1].(*ast.Ident); ok && e2.Name == "err" {
+				if ifs, ok := list[1].(*ast.IfStmt); ok && ifs.Init == nil && ifs.Else == nil {
+					if be, ok := ifs.Cond.(*ast.BinaryExpr); ok && be.Op == token.NEQ && isNilIdent(be.Y) {
+						if id, ok := be.X.(*ast.Ident); ok && id.Name == "err" {
+							if x, ok := s.Lhs[0].(*ast.Ident); ok {
+								errBranch := c.stmts(ifs.Body.List)
+								okBranch := c.stmts(list[2:])
+								return fmt.Sprintf("match %s with\n  | Some %s => %s\n  | None => %s\n  end", c.expr(s.Rhs[0]), ident(x.Name), okBranch, errBranch)
+							}
+						}
+					}
+				}
+			}
+			return c.fail("two-value assignment outside the `x, err := f(); if err != nil` idiom")
+		}
 		if len(s.Lhs) != 1 || len(s.Rhs) != 1 {
 			return c.fail("multiple assignment")
 		}
@@ -628,11 +669,29 @@ func analyseKernels(w *world) string {
 		fd   *funcDecl
 	}
 	var items []item
+	for _, sp := range extraStructs {
+		if p := w.all[repoModule+"/"+sp.pkg]; p != nil {
+			if obj := p.Types.Scope().Lookup(sp.recv); obj != nil {
+				k.structs[sp.recv] = obj.Type().(*types.Named)
+				k.order = append(k.order, sp.recv)
+			}
+		}
+	}
 	for _, sp := range kernelList {
 		k.spec[sp.recv+"."+sp.name] = true
 		p := w.all[repoModule+"/"+sp.pkg]
 		if p == nil {
 			k.errs = append(k.errs, "package not loaded: "+sp.pkg)
+			continue
+		}
+		if sp.recv == "" {
+			fn, _ := p.Types.Scope().Lookup(sp.name).(*types.Func)
+			if fn == nil || w.decls[fn] == nil {
+				k.errs = append(k.errs, "function not found: "+sp.name)
+				items = append(items, item{spec: sp})
+				continue
+			}
+			items = append(items, item{sp, fn, w.decls[fn]})
 			continue
 		}
 		obj := p.Types.Scope().Lookup(sp.recv)
@@ -735,8 +794,15 @@ func analyseKernels(w *world) string {
 			if isErr(sig.Results().At(1).Type()) {
 				c.results = "valerr"
 			}
+		case 3:
+			if isErr(sig.Results().At(2).Type()) {
+				c.results = "val2err"
+			}
 		}
-		params := []string{fmt.Sprintf("(%s : G_%s)", ident(c.recvName), it.spec.recv)}
+		var params []string
+		if it.spec.recv != "" {
+			params = append(params, fmt.Sprintf("(%s : G_%s)", ident(c.recvName), it.spec.recv))
+		}
 		for i := 0; i < sig.Params().Len(); i++ {
 			p := sig.Params().At(i)
 			gt, _ := k.galType(p.Type())
@@ -749,7 +815,7 @@ func analyseKernels(w *world) string {
 		var body string
 		if c.results == "" {
 			body = c.fail("result shape")
-		} else if c.mutating && (c.results == "val" || c.results == "valerr") {
+		} else if c.mutating && (c.results == "val" || c.results == "valerr" || c.results == "val2err") {
 			body = c.fail("a method that both assigns to its receiver and returns a value")
 		} else {
 			body = c.stmts(d.Body.List)
